@@ -577,6 +577,10 @@ func (vc *VC) specCall(x CCall, env *SpecEnv) Term {
 	case "store":
 		a := args()
 		return Term{fmt.Sprintf("(store %s %s %s)", a[0].S, a[1].S, a[2].S), a[0].Sort, a[0].T}
+	case "strLess":
+		a := args()
+		vc.ss.declare(&sortInfo{Name: "str$lt", Kind: "const", Decl: "(declare-fun gs.lt (Str Str) Bool)"})
+		return Term{fmt.Sprintf("(gs.lt %s %s)", a[0].S, a[1].S), SBool, nil}
 	case "sprintf":
 		if f, ok := x.Args[0].(CStr); ok {
 			var as []Term
